@@ -230,6 +230,8 @@ def build_spec(seed: int, prop: str, tier: str) -> dict:
             if mode == "threads":
                 g["sched_seed"] = r.getrandbits(32)
                 g["switch_p"] = r.choice([0.02, 0.05, 0.1, 0.25, 0.5])
+                if r.random() < 0.4:  # pre-emption bounded schedule: 1-3 switches at uniformly drawn statement numbers
+                    g["switch_steps"] = sorted(r.sample(range(1, 90 * n), r.choice([1, 1, 2, 3])))
             groups.append(g)
             # twin: the same call again in the other flavour (sync <-> asyncio) and/or the other variant
             if r.random() < 0.35:
@@ -515,7 +517,7 @@ class World:
         if not getattr(self, "_all_imported", False):
             genrun.import_all_modules(self.pkg.parent, PKG)  # no thread may meet an import lock while holding the baton
             self._all_imported = True
-        sched = simthreads.ThreadSched(rng.stream(int(g.get("sched_seed") or 0), "threads"), (self.pkg.pkg_dir,), float(g.get("switch_p") or 0.1))
+        sched = simthreads.ThreadSched(rng.stream(int(g.get("sched_seed") or 0), "threads"), (self.pkg.pkg_dir,), float(g.get("switch_p") or 0.1), g.get("switch_steps"))
         self.apiserver.THREAD_SCHED = sched
         try:
             out = sched.run([lambda p=p: self.run_sync(p, client) for p in preps])
@@ -525,6 +527,8 @@ class World:
         finish = [ids[t] for t in sched.finish_order]
         n_sw = len(sched.switches)
         self.probe("thread-groups")
+        if g.get("switch_steps"):
+            self.probe("thread-groups-preemption-bounded")
         self.probe("thread-switches", n_sw)
         if n_sw:
             self.probe("thread-group-interleaved")
